@@ -3,7 +3,9 @@ import ast
 import re
 
 from .. import matrixsem as MS
-from ..algebra import Alg, atom, const, ref
+from ..algebra import RF, Alg, atom, const, ref
+from ..normalise import expand_helpers
+from ..pe import PE, K
 from ..model import AnalysisError, attr_chain, call_name, if_chain, eq_keys, stmts_in
 
 EXPLANATION = (
@@ -130,11 +132,14 @@ def dispatch(ctx):
 # --------------------------------------------------------------------------- R04.2
 def composition(ctx):
     fn, loop = parse_loop(ctx)
-    calls = [c for c in ast.walk(loop) if isinstance(c, ast.Call) and isinstance(c.func, ast.Attribute)
-             and isinstance(c.func.value, ast.Name) and c.func.value.id == "self"]
+    ops = lambda nm: nm.startswith("pre_") or nm.startswith("post_") or nm in ("parse", "_parse")
+    region = [loop] + expand_helpers(ctx.m, "Matrix", [loop], skip=ops)
+    calls = [c for top in region for c in ast.walk(top) if isinstance(c, ast.Call) and isinstance(c.func, ast.Attribute)
+             and isinstance(c.func.value, ast.Name) and c.func.value.id == "self" and (c.func.attr.startswith("pre_") or c.func.attr.startswith("post_"))]
     ctx.need(len(calls) >= 11, "R04.2", "Matrix.parse: too few composition calls")
     bad = [c for c in calls if not c.func.attr.startswith("pre_")]
-    ctx.ob("R04.2", "Matrix.parse[pre-only]", not bad, "; ".join("%s line %d" % (c.func.attr, c.lineno) for c in bad), loop.lineno,
+    inplace = [a for top in region for a in ast.walk(top) if isinstance(a, ast.AugAssign) and isinstance(a.target, ast.Name) and a.target.id == "self"]
+    ctx.ob("R04.2", "Matrix.parse[pre-only]", not bad and not inplace, "; ".join("%s line %d" % (c.func.attr, c.lineno) for c in bad) + "; ".join(ast.unparse(a) for a in inplace), loop.lineno,
            "a transform list applies its right-most function first: every function must be composed on the first-applied side (pre_*)")
     # pre_cat: matrix_multiply(new, self); __imatmul__: matrix_multiply(self, other)
     for qual, want in (("Matrix.pre_cat", "new,self"), ("Matrix.__imatmul__", "self,new")):
@@ -227,12 +232,14 @@ def branch_ops(ctx, branches):
         body = branches.get(name)
         if body is None:
             continue
+        ops = lambda nm: nm.startswith("pre_") or nm.startswith("post_") or nm in ("parse", "_parse")
+        body = list(body) + expand_helpers(ctx.m, "Matrix", body, skip=ops)
         defs = {}
         for s in stmts_in(body):
             if isinstance(s, ast.Assign) and isinstance(s.targets[0], ast.Name):
                 defs[s.targets[0].id] = s.value
         calls = [c for c in (n for s in body for n in ast.walk(s)) if isinstance(c, ast.Call) and isinstance(c.func, ast.Attribute)
-                 and isinstance(c.func.value, ast.Name) and c.func.value.id == "self"]
+                 and isinstance(c.func.value, ast.Name) and c.func.value.id == "self" and ops(c.func.attr)]
         got = set()
         for c in calls:
             sig = (c.func.attr, tuple(classify(a, defs, params_var) for a in c.args))
@@ -302,33 +309,80 @@ def neg(s):
     return s[1:] if s.startswith("-") else "-" + s
 
 
+def composed_ops(ctx, qual, fn, side, centre_zero):
+    """Operations composed onto self, in order, when the centre is / is not the origin: [(op, [RF args])] or None"""
+    params = [a.arg for a in fn.args.args][1:]
+    cx, cy = params[-2:]
+    seq = []
+    local = []
+
+    def oracle(pe, test):
+        if isinstance(test, ast.Compare) and len(test.ops) == 1 and isinstance(test.ops[0], (ast.Eq, ast.NotEq)):
+            l, r = pe.ev(test.left), pe.ev(test.comparators[0])
+            for a_, b_ in ((l, r), (r, l)):
+                if isinstance(a_, RF) and isinstance(b_, RF) and b_.is_const() and b_.constval() == 0 and (a_ == atom(cx) or a_ == atom(cy)):
+                    return centre_zero if isinstance(test.ops[0], ast.Eq) else not centre_zero
+        if isinstance(test, ast.Name) and test.id in (cx, cy):
+            return not centre_zero
+        return None
+
+    def on_expr(pe, st):
+        c = st.value
+        if isinstance(c, ast.Call) and isinstance(c.func, ast.Attribute) and isinstance(c.func.value, ast.Name):
+            recv, meth = c.func.value.id, c.func.attr
+            if recv == "self" and local and meth == side + "_cat" and len(c.args) == 1 and isinstance(c.args[0], ast.Name) and c.args[0].id in local:
+                return
+            if recv == "self" or recv in local:
+                if not meth.startswith(side + "_"):
+                    seq.append(("WRONGSIDE:" + meth, []))
+                    return
+                op = meth[len(side) + 1:]
+                args = c.args
+                if op == "cat" and len(args) == 1 and isinstance(args[0], ast.Call) and isinstance(args[0].func, ast.Attribute) and attr_chain(args[0].func) and attr_chain(args[0].func)[0] == "Matrix":
+                    op = args[0].func.attr
+                    args = args[0].args
+                seq.append((op, [pe.ev(a_) for a_ in args]))
+                return
+        seq.append(("?", [ast.unparse(st)[:40]]))
+
+    def hook(pe, call):
+        if call_name(call) == "Matrix" and not call.args:
+            return K("fresh-matrix")
+        return None
+
+    pe = PE(ctx.m, "R04.4", qual, oracle=oracle, call_hook=hook, on_expr=on_expr)
+    for pn in params:
+        pe.bind(pn, atom(pn))
+    body = [x for x in fn.body if not (isinstance(x, ast.Expr) and isinstance(x.value, ast.Constant))]
+    # a fresh local matrix composed onto self at the end counts as self (associativity)
+    for x in ast.walk(fn):
+        if isinstance(x, ast.Assign) and isinstance(x.targets[0], ast.Name) and call_name(x.value) == "Matrix" and not x.value.args:
+            local.append(x.targets[0].id)
+    pe.run(body)
+    return seq, params
+
+
 def sandwiches(ctx):
     for side in ("pre", "post"):
-        for op, lead in (("scale", ["sx", "sy"]), ("rotate", ["angle"]), ("skew", ["angle_a", "angle_b"])):
+        for op in ("scale", "rotate", "skew"):
             qual = "Matrix.%s_%s" % (side, op)
             fn = ctx.fn(qual, "R04.4")
-            params = [a.arg for a in fn.args.args][1:]
-            lead = params[:len(params) - 2]
-            cx, cy = params[-2:]
-            top = [s for s in fn.body if isinstance(s, ast.If)]
-            centred = None
-            plain = None
-            for s in top:
-                t = ast.unparse(s.test)
-                if "== 0" in t and cx in t and cy in t:
-                    plain, centred = s.body, s.orelse
-            ctx.need(centred is not None, "R04.4", "%s: `if %s == 0 and %s == 0` split not found" % (qual, cx, cy))
-            pseq = normalise_seq(self_calls(plain), side)
-            ok_plain = pseq is not None and len(pseq) == 1 and (
-                (pseq[0][0] == "cat" and pseq[0][1] == ["Matrix.%s(%s)" % (op, ", ".join(lead))]) or (pseq[0][0] == op and pseq[0][1] == lead))
-            ctx.ob("R04.4", qual + "[origin]", ok_plain, str(pseq), fn.lineno, "without a centre the elementary matrix is composed directly")
-            cseq = normalise_seq(self_calls(centred), side)
+            pseq, params = composed_ops(ctx, qual, fn, side, True)
+            lead = [atom(pn) for pn in params[:len(params) - 2]]
+            cx, cy = atom(params[-2]), atom(params[-1])
+
+            def same(xs, ys):
+                return len(xs) == len(ys) and all(isinstance(x, RF) and x == y for x, y in zip(xs, ys))
+
+            ok_plain = len(pseq) == 1 and pseq[0][0] == op and same(pseq[0][1], lead)
+            ctx.ob("R04.4", qual + "[origin]", ok_plain, str([(o, [str(a) for a in ar]) for o, ar in pseq]), fn.lineno, "without a centre the elementary matrix is composed directly")
+            cseq, _ = composed_ops(ctx, qual, fn, side, False)
             # pre (first-applied side): translate(+c) ; op ; translate(-c).  post (last-applied side): translate(-c); op; translate(+c)
-            first_sign = [cx, cy] if side == "pre" else [neg(cx), neg(cy)]
-            last_sign = [neg(cx), neg(cy)] if side == "pre" else [cx, cy]
-            ok = cseq is not None and len(cseq) == 3 and cseq[0] == ("translate", first_sign) and cseq[2] == ("translate", last_sign) \
-                and cseq[1][0] == op and cseq[1][1] == lead
-            ctx.ob("R04.4", qual + "[centred]", ok, str(cseq), fn.lineno,
+            first_sign = [cx, cy] if side == "pre" else [-cx, -cy]
+            last_sign = [-cx, -cy] if side == "pre" else [cx, cy]
+            ok = len(cseq) == 3 and cseq[0][0] == "translate" and same(cseq[0][1], first_sign) and cseq[2][0] == "translate" and same(cseq[2][1], last_sign) \
+                and cseq[1][0] == op and same(cseq[1][1], lead)
+            ctx.ob("R04.4", qual + "[centred]", ok, str([(o, [str(a) for a in ar]) for o, ar in cseq]), fn.lineno,
                    "centred operation must be translate(c) . op . translate(-c) as seen by a point, composed on the %s side" % side)
         # axis variants delegate with the neutral element
         for op, neutral, order in (("scale_x", "1", 0), ("scale_y", "1", 1), ("skew_x", "0", 0), ("skew_y", "0", 1), ("translate_x", "0", 0), ("translate_y", "0", 1)):
